@@ -1,6 +1,7 @@
 import ErgVerif.Util.Sexp
 import ErgVerif.Util.PredIO
 import ErgVerif.C06.Spec
+import Driver.TyIO
 /-!
 Driver for C06 (`ergmodel_c06`).
 stdin  : id \t <case> \t <impl-output>      (cases: see harness/src/bin/c06.rs)
@@ -16,47 +17,6 @@ Spec verdict, evaluated on the IMPLEMENTATION's answers:
 inK: the id of the recorded finding whose class the case falls in (see `classify`).
 -/
 open ErgVerif ErgVerif.PredIO ErgVerif.C06
-
-def T0 : Table := genTable
-
-def nameIndex (n : String) : Option Nat :=
-  let rec go (rows : List Row) (i : Nat) : Option Nat :=
-    match rows with
-    | [] => none
-    | r :: rs => if r.name = n then some i else go rs (i + 1)
-  go T0.rows 0
-
-mutual
-partial def tyOfSexp : Sexp → Option Ty
-  | .atom n => (nameIndex n).map Ty.mono
-  | .list [.atom "ref", .atom b, p] =>
-    match nameIndex b, predOfSexp p with
-    | some k, some q => some (.refine k q)
-    | _, _ => none
-  | .list (.atom "or" :: es) => (tysOfSexp es).map (fun l => Ty.or (TyList.ofList l))
-  | .list (.atom "and" :: es) => (tysOfSexp es).map (fun l => Ty.and (TyList.ofList l))
-  | .list (.atom "tuple" :: es) => (tysOfSexp es).map (fun l => Ty.tuple (TyList.ofList l))
-  | .list [.atom "list", e, .atom n] =>
-    match tyOfSexp e, n.toNat? with
-    | some t, some k => some (.list t k)
-    | _, _ => none
-  | _ => none
-partial def tysOfSexp : List Sexp → Option (List Ty)
-  | [] => some []
-  | e :: es =>
-    match tyOfSexp e, tysOfSexp es with
-    | some t, some ts => some (t :: ts)
-    | _, _ => none
-end
-
-mutual
-partial def showVal : Val → String
-  | .int i => "(int " ++ toString i ++ ")"
-  | .str c => "(str s" ++ toString c ++ ")"
-  | .obj k => "(instance-of " ++ (T0.row k).name ++ ")"
-  | .list vs => "(list" ++ String.join (vs.toList.map (fun v => " " ++ showVal v)) ++ ")"
-  | .tuple vs => "(tuple" ++ String.join (vs.toList.map (fun v => " " ++ showVal v)) ++ ")"
-end
 
 def nOrders : Nat := 4
 
